@@ -37,6 +37,7 @@ def main():
             rep["mismatches"].append(dict(key=key, **d))
 
     ncase = [0]
+    orig_rofc = m.ScenarioRunnerNoTrade.run_optimizer_for_country
     shared_runner = m.ScenarioRunnerNoTrade()
     for line in open(sys.argv[1]):
         c = json.loads(line)
@@ -107,6 +108,28 @@ def main():
                 rep["sum_many"] = rep.get("sum_many", 0) + 1
             except BaseException as ex:  # noqa
                 bad("SumMany:exception:%s" % form, dict(case=c, exc=repr(ex)[:200]))
+    # one aggregate with nothing stubbed, the way the web interface asks for it (results returned and every table saved)
+    if len(sys.argv) > 3:
+        m.ScenarioRunnerNoTrade.run_optimizer_for_country = orig_rofc
+        m.pd.read_csv = real_read
+        job = json.load(open(sys.argv[3]))
+        try:
+            with contextlib.redirect_stdout(io.StringIO()), contextlib.redirect_stderr(io.StringIO()):
+                world, net_pop, net_pop_fed, results = m.ScenarioRunnerNoTrade().run_model_no_trade(
+                    title="agg_real", create_pptx_with_all_countries=False, scenario_option=dict(job["options"]), countries_list=list(job["countries"]),
+                    return_results=True, save_all_results=True)
+            rows = {r["iso3"]: r for _, r in full.iterrows()}
+            want_names = sorted(rows[c]["country"] for c in job["countries"])
+            if sorted(results.keys()) != want_names:
+                bad("EachOnce:real-run:save_all_results", dict(keys=sorted(results.keys()), want=want_names))
+            else:
+                want_tot = sum(float(rows[c]["population"]) for c in job["countries"])
+                want_fed = sum(float(rows[c]["population"]) * min(1.0, results[rows[c]["country"]].percent_people_fed / 100.0) for c in job["countries"])
+                if abs(net_pop - want_tot) > 1e-6 * want_tot or abs(net_pop_fed - want_fed) > 1e-6 * max(1.0, want_fed):
+                    bad("AggregateIsCappedMean:real-run", dict(got=[float(net_pop), float(net_pop_fed)], want=[want_tot, want_fed]))
+            rep["real_runs"] = len(job["countries"])
+        except BaseException as ex:  # noqa
+            bad("Aggregate:exception:real-run", dict(exc=repr(ex)[:200]))
     json.dump(rep, open(sys.argv[2], "w"))
 
 
